@@ -4,3 +4,4 @@ import Orda.Model.Datatypes
 import Orda.Model.Replica
 import Orda.Model.Api
 import Orda.Spec.Denote
+import Orda.Spec.Plain
